@@ -38,6 +38,8 @@ pub fn de_kind(e: &DE) -> String {
         DE::InvalidMaxChunkSize { .. } => "err:cs".into(),
         DE::InvalidMessageLength { .. } => "err:len".into(),
         DE::Io(_) => "err:io".into(),
+        #[allow(unreachable_patterns)]
+        _ => "err:other".into(), // a variant this harness does not know: never equal to a model answer
     }
 }
 
@@ -47,6 +49,8 @@ pub fn se_kind(e: &SE) -> String {
         SE::InvalidMaxChunkSize { .. } => "err:cs".into(),
         SE::Io(_) => "err:io".into(),
         SE::SetChunkSizeMessageCreationFailure(_) => "err:cs".into(),
+        #[allow(unreachable_patterns)]
+        _ => "err:other".into(), // a variant this harness does not know: never equal to a model answer
     }
 }
 
